@@ -9,6 +9,11 @@ package main
 //	         same instant is rejected by the per-second rate; rejected requests debit nothing, so the hour budget is
 //	         still 49: the next 49 requests, one per second, are admitted and the 50th is rejected (C03: the hour bound).
 //
+//	D (C14)  capacity 1 and a slow rate lookup: source A is tracked and out of tokens; a second request of A is slow in the
+//	         rate extractor while the first request of B arrives. Each request takes effect at one instant, so the four
+//	         answers (A2, B1, then B2, A3 one after the other) are those of the order A2,B1 (429 200 429 200: B evicts A)
+//	         or of the order B1,A2 (200 200 200 200: everybody evicts everybody): nothing else is a sequential history.
+//
 //	C (C13)  two sources with rates of their own (1/h and 1/s) are rejected at the same time: every rejection advertises
 //	         the wait of its own source (frozen clock: exactly 1h0m0s and 1s).
 //
@@ -88,14 +93,16 @@ func one(tl http.Handler, source string) int {
 func main() {
 	rounds := flag.Int("rounds", 300, "rounds per scenario")
 	g := flag.Int("g", 8, "goroutines")
+	only := flag.String("only", "", "run only this scenario (A, B, C or D)")
 	flag.Parse()
+	skip := func(name string) bool { return *only != "" && *only != name }
 	extract := utils.ExtractorFunc(func(r *http.Request) (string, int64, error) { return r.Header.Get("X-Source"), 1, nil })
 	ok := http.HandlerFunc(func(w http.ResponseWriter, r *http.Request) { w.WriteHeader(http.StatusOK) })
 	unfreeze := clock.Freeze(time.Date(2024, 5, 1, 0, 0, 0, 0, time.UTC))
 	defer unfreeze.Unfreeze()
 
 	// A
-	{
+	if !skip("A") {
 		rates := ratelimit.NewRateSet()
 		_ = rates.Add(time.Hour, 5, 5)
 		tl, err := ratelimit.New(ok, extract, rates, ratelimit.Capacity(1<<20))
@@ -118,7 +125,7 @@ func main() {
 	}
 
 	// B
-	{
+	if !skip("B") {
 		rates := ratelimit.NewRateSet()
 		_ = rates.Add(time.Second, 1, 1)
 		_ = rates.Add(time.Hour, 50, 50)
@@ -147,7 +154,7 @@ func main() {
 		}
 	}
 	// C
-	{
+	if !skip("C") {
 		slow, fast := ratelimit.NewRateSet(), ratelimit.NewRateSet()
 		_ = slow.Add(time.Hour, 1, 1)
 		_ = fast.Add(time.Second, 1, 1)
@@ -200,6 +207,41 @@ func main() {
 			ready.Wait()
 			atomic.StoreInt32(&start, 1)
 			done.Wait()
+		}
+	}
+	// D
+	if !skip("D") {
+		rates := ratelimit.NewRateSet()
+		_ = rates.Add(time.Hour, 1, 1)
+		var armed int32
+		lookup := ratelimit.RateExtractorFunc(func(r *http.Request) (*ratelimit.RateSet, error) {
+			if atomic.CompareAndSwapInt32(&armed, 1, 0) {
+				time.Sleep(25 * time.Millisecond) // a configuration lookup that takes its time
+			}
+			return rates, nil
+		})
+		for round := 0; round < *rounds/10+3 && atomic.LoadInt32(&failures) < 3; round++ {
+			tl, err := ratelimit.New(ok, extract, rates, ratelimit.Capacity(1), ratelimit.ExtractRates(lookup))
+			if err != nil {
+				panic(err)
+			}
+			a, b := fmt.Sprintf("da%d", round), fmt.Sprintf("db%d", round)
+			if c := one(tl, a); c != http.StatusOK {
+				fail("C14", "D round %d: the first request of a new source was answered %d", round, c)
+				continue
+			}
+			atomic.StoreInt32(&armed, 1)
+			a2 := make(chan int, 1)
+			go func() { a2 <- one(tl, a) }()
+			time.Sleep(2 * time.Millisecond)
+			b1 := one(tl, b)
+			got := []int{<-a2, b1, 0, 0}
+			got[2] = one(tl, b)
+			got[3] = one(tl, a)
+			s := fmt.Sprint(got)
+			if s != "[429 200 429 200]" && s != "[200 200 200 200]" {
+				fail("C14", "D round %d: capacity 1, rate 1/h burst 1, frozen clock; A was admitted once; then a request of A (slow in the rate extractor) and the first request of B ran together, then B, then A one after the other: answers %s (A2 B1 B2 A3); the sequential histories give [429 200 429 200] (A2 before B1) or [200 200 200 200] (B1 before A2): a source that had been forgotten kept its old bucket, or a tracked one was forgotten out of turn", round, s)
+			}
 		}
 	}
 	n := atomic.LoadInt32(&failures)
